@@ -4,7 +4,7 @@ CONSTANTS
   RekeySides = {"main", "pull"}
   Msgs = {m1, m2}
   Ads = {a1, a2}
-  Tags = {0, 1, 2, 3}
+  Tags = {0, 3}
   Tampers = {"none", "tampered"}
   MaxPush = 4
   MaxForeign = 1
